@@ -45,6 +45,14 @@ class EndpointParameterProcessor:
 
         for param in op.parameters:
             param_name_sanitized = NameSanitizer.sanitize_method_name(param.name)
+            # Distinct parameters (e.g. path `id` and query `id`, or `user-id` and `user_id`) can sanitise to
+            # the same Python name: suffix until unused. The wire name is kept in `original_name`.
+            if param_name_sanitized in param_details_map:
+                base_param_name = param_name_sanitized
+                suffix = 2
+                while param_name_sanitized in param_details_map:
+                    param_name_sanitized = f"{base_param_name}_{suffix}"
+                    suffix += 1
             param_info = {
                 "name": param_name_sanitized,
                 "type": get_param_type(param, context, self.schemas),
